@@ -171,4 +171,46 @@ def cycStep (wc : World × PState) : CStep → World × PState
 
 def cycRun (w : World) (c : PState) (steps : List CStep) : World × PState := steps.foldl cycStep (w, c)
 
+/-! ### (c) a pod scheduled NEXT TO reservations it does not match (extension 4)
+
+      pkg/scheduler/plugins/deviceshare/reservation.go  RestoreReservation (matched = none), mergeReservationAllocations
+      pkg/scheduler/plugins/deviceshare/plugin.go       Filter / allocate:
+          `preemptible := appendAllocated(nil, restoreState.mergedUnmatchedUsed, state.preemptibleDevices[node])`,
+          tryAllocateFromReusable / allocateWithNominated return (nil, nil) without a matched reservation,
+          then `allocator.Allocate(nil, nil, required, preemptible)`.
+    The ledger counts a reservation's own record AND, on top of it, what its owner pods took out of it; the discount for
+    an unmatched reservation takes exactly the owners' part out again — what the reservation STILL HOLDS stays in use. -/
+
+/-- mergeReservationAllocations, one unmatched reservation:
+    `used := subtractAllocated(copyDeviceResources(alloc.allocatable), alloc.remained, true)` -/
+def unmatchedDiscount (a : Reusable) : DevRes := drSubtract a.allocatable a.remained true
+
+/-- the hypotheses on one reusableAlloc the extension-4 theorems (Props/C07.lean) need; decidable, evaluated by the driver on every reservation
+    of every `cyrst` line (`rsvhyp 0` would be printed): the reservation's record is a map with amounts ≥ 0, what the
+    owners took out of it is ≥ 0, and they did not take more than it holds (remained ≥ 0) -/
+def rsvOK (a : Reusable) : Bool := alOK a.allocatable && amountsOK a.allocated && amountsOK a.remained
+
+/-- the devices Plugin.allocate / Filter let the allocator see on a node when the restore state of that node grants the
+    preemptible amounts `pre` (= mergedUnmatchedUsed; no preemption dry-run, no matched reservation):
+    `filter(minors of deviceInfos, required = designated amounts if any, preemptible = pre)`.
+    Without such amounts it is the view of `cycView`. -/
+def cycViewR (s : TState) (minors : List Nat) (c : PState) (pre : DevRes) : TState :=
+  if pre.isEmpty then cycView s minors c else filterT s (some minors) pre (c.designated.getD [])
+
+/-- Plugin.Filter on one candidate node with a restore state that has unmatched reservations only -/
+def cycFilterR (s : TState) (minors : List Nat) (a : AllocReq) (c : PState) (pre : DevRes) : PState × Bool :=
+  if pre.isEmpty then cycFilter s minors a c else
+  match c.designated, c.result with
+  | some _, some _ => (c, true)
+  | _, _ => (c, (allocate (cycViewR s minors c pre) a).isSome)
+
+/-- Plugin.Reserve on the selected node with such a restore state -/
+def cycReserveR (s : TState) (minors : List Nat) (a : AllocReq) (c : PState) (pre : DevRes) (p : Nat) : TState × PState × Bool :=
+  match c.result with
+  | some ms => (addT s p (allocList a ms), c, true)
+  | none =>
+    match allocate (cycViewR s minors c pre) a with
+    | none => (s, c, false)
+    | some ms => (addT s p (allocList a ms), { c with result := some ms }, true)
+
 end KoordVerif.C07
